@@ -507,6 +507,11 @@ M("C14", "spill-reader-labels", MP, "                mt.sigmaqn = self._get_sigm
 M("C14", "spill-cleanup-everything", MP, "        dir_with_id = os.path.join(self.compress_config.dump_matrix_dir, str(id(self)))\n        if os.path.exists(dir_with_id):\n            try:\n                shutil.rmtree(dir_with_id)",
   "        dir_with_id = self.compress_config.dump_matrix_dir\n        if os.path.exists(dir_with_id):\n            try:\n                shutil.rmtree(dir_with_id)", ["spill-protocol", "deleting an object"],
   "deleting one object removes the whole spill directory, including the files of live objects")
+M("C10", "evolve-exact-phase-sign", MPS, "        new_mps.coeff *= np.exp(-1j * h_mpo.offset * evolve_dt)", "        new_mps.coeff *= np.exp(1j * h_mpo.offset * evolve_dt)", ["evolve-exact-siblings", "offset cancels"],
+  "compensating phase of Mps.evolve_exact with the wrong sign")
+M("C10", "evolve-exact-mpdm-shift", MPDM, "space=space, shift=-h_mpo.offset", "space=space, shift=h_mpo.offset", ["evolve-exact-siblings"], "MpDm.evolve_exact shifts the propagator the wrong way")
+M("C10", "evolve-exact-phase-on-input", MPS, "        new_mps.coeff *= np.exp(-1j * h_mpo.offset * evolve_dt)", "        self.coeff *= np.exp(-1j * h_mpo.offset * evolve_dt)", ["evolve-exact-siblings"],
+  "phase multiplied into the input state instead of the result")
 M("C06", "canonicalise-switch-always", "renormalizer/mps/mp.py", "        if (not self.to_right and idx == 1) or (self.to_right and idx == self.site_num - 2):\n            self._switch_direction()", "        self._switch_direction()", ["sweep-centre"],
   "direction switched after partial sweeps too")
 M("C02", "graph-cover-le", "renormalizer/mps/symbolic_mpo.py", "    if non_red.shape[0] < non_red.shape[1]:\n        for i in range(non_red.shape[0]):", "    if non_red.shape[0] <= non_red.shape[1]:\n        for i in range(non_red.shape[0]):", ["terminal-cover"],
